@@ -286,7 +286,8 @@ P_UndoWithinOneCycle == P_UndoContinue /\ P_UndoRestore /\ P_UndoQuiet
 P_Idempotent ==
   ev.kind = "start" =>
      /\ ev.err = ~pre.valid
-     /\ ev.spawned = (IF pre.valid /\ ~pre.hunted THEN 1 ELSE 0)
+     /\ (~pre.valid => ev.spawned = 0)
+     /\ (~refClosed => ev.spawned = (IF pre.valid /\ ~pre.hunted THEN 1 ELSE 0))    \* (the statement is silent about StartHunt after Close)
 
 \* "Close stops all loops": a loop that continues after a check saw the handler open when it acted
 \* (the wake-up half is the `stuck` observation of the trace specification / the fairness config)
